@@ -440,7 +440,7 @@ func TestNodeSizes(t *testing.T) {
 			return v
 		}
 		for L := 1; L <= 1300; L++ {
-			path := []byte("0123456789abcdef0123456789abcdef0123456789abcdef0123456789abcdef")[:int(seed+uint64(L))%65]
+			path := []byte("0123456789abcdef0123456789abcdef0123456789abcdef0123456789abcdef")[:int((seed+uint64(L))%65)]
 			nodes := map[string]util.Node{
 				"leaf":   util.NewLeafNode([]byte("ab"), path, util.Sequence(seed%5), mptkit.Val(value(L, byte(L)))),
 				"branch": full(value(L, byte(L))),
